@@ -92,6 +92,19 @@ class GStruct(GraphBase):
         E("construct Mask2D(Mask2D, invert=True)", lambda c: _arr(aa.Mask2D(mask=c["mask"], pixel_scales=1.0, invert=True)))
         E("construct Mask1D(bool array, invert=True)", lambda c: _arr(aa.Mask1D(mask=c["in_mask1"], pixel_scales=1.0, invert=True)))
         E("construct Array2D(list of lists)", lambda c: _arr(aa.Array2D(values=c["in_list"], mask=c["mask"]).native))
+        # natively stored STRUCTURES handed on to a constructor / apply_mask with a mask that masks more pixels
+        E("construct Grid2D(values=gN [native-stored Grid2D], mask2)", lambda c: _arr(aa.Grid2D(values=c["gN"], mask=c["mask2"]).native),
+          lambda c: _arr(aa.Grid2D(values=_arr(c["gN"].native).copy(), mask=c["mask2"]).native))
+        E("construct Grid2D(values=gn.native, mask2)", lambda c: _arr(aa.Grid2D(values=c["gn"].native, mask=c["mask2"]).native),
+          lambda c: _arr(aa.Grid2D(values=_arr(c["gn"].native).copy(), mask=c["mask2"]).native))
+        E("construct Array2D(values=aN [native-stored Array2D], mask2)", lambda c: _arr(aa.Array2D(values=c["aN"], mask=c["mask2"]).native),
+          lambda c: _arr(aa.Array2D(values=_arr(c["aN"].native).copy(), mask=c["mask2"]).native))
+        E("read aN.apply_mask(mask2).native", lambda c: _arr(c["aN"].apply_mask(mask=c["mask2"]).native),
+          lambda c: _arr(aa.Array2D(values=_arr(c["aN"].native).copy(), mask=c["mask2"]).native))
+        E("read vecN.apply_mask(mask2).native", lambda c: _arr(c["vecN"].apply_mask(mask=c["mask2"]).native))
+        E("read vec.native.apply_mask(mask2).native", lambda c: _arr(c["vec"].native.apply_mask(mask=c["mask2"]).native))
+        E("SimulatorImaging(sky).via_image_from(image with negative pixels).data", lambda c: _arr(
+            aa.SimulatorImaging(exposure_time=100.0, psf=c["own_kern"], background_sky_level=9.0, add_poisson_noise_to_data=False, noise_seed=1).via_image_from(image=c["a_neg"]).data.native))
         # slim (1D) inputs: the structure may legitimately share memory with the input, but no query may then write to it
         E("construct Array2D(slim values)", lambda c: _arr(aa.Array2D(values=c["in_slim"], mask=c["mask"]).native))
         E("construct Kernel2D(slim values, shape_native, normalize)",
@@ -201,6 +214,11 @@ class GStruct(GraphBase):
         c["g"] = aa.Grid2D.from_mask(mask=mask, over_sampling=aa.OverSamplingUniform(sub_size=2))
         c["gn"] = aa.Grid2D(values=c["in_grid"].copy(), mask=mask)
         c["vec"] = aa.VectorYX2D(values=c["in_vec"].copy(), grid=aa.Grid2D.from_mask(mask=mask), mask=mask)
+        c["gN"] = aa.Grid2D(values=c["in_grid"].copy(), mask=mask, store_native=True)
+        c["aN"] = aa.Array2D(values=c["in_arr"].copy(), mask=mask, store_native=True)
+        c["vecN"] = aa.VectorYX2D(values=c["in_vec"].copy(), grid=aa.Grid2D.from_mask(mask=mask), mask=mask, store_native=True)
+        neg = np.arange(36.0).reshape(6, 6) % 5 - 1.5 + 0.1 * r.uniform(size=(6, 6))
+        c["a_neg"] = aa.Array2D.no_mask(values=neg, pixel_scales=1.0)
         c["kern"] = aa.Kernel2D.no_mask(values=c["in_kern"].copy(), pixel_scales=1.0)
         c["vis"] = aa.Visibilities(visibilities=c["in_vis"].copy())
         c["cmask"] = aa.Mask2D.circular(shape_native=(7, 7), radius=2.0, pixel_scales=1.0)
@@ -208,7 +226,7 @@ class GStruct(GraphBase):
         return c
 
     def roots(self, c):
-        return {k: c[k] for k in ("a", "a_full", "g", "gn", "vec", "kern", "vis", "cmask", "cmask_big", "mask", "mask2", "mask1", "own_kern", "own_a")}
+        return {k: c[k] for k in ("a", "a_full", "a_neg", "gN", "aN", "vecN", "g", "gn", "vec", "kern", "vis", "cmask", "cmask_big", "mask", "mask2", "mask1", "own_kern", "own_a")}
 
     def inputs(self, c):
         return {k: c[k] for k in ("in_arr", "in_grid", "in_vec", "in_kern", "in_vis", "in_arr1", "in_mask", "in_slim", "in_grid_slim",
@@ -420,6 +438,10 @@ class GInv(GraphBase):
         E("read MapperValued.mapped_reconstructed_image_from()", lambda c: _arr(self._mv(c).mapped_reconstructed_image_from()))
         E("read MapperValued.max_pixel_centre", lambda c: _arr(self._mv(c).max_pixel_centre))
         E("read MapperValued.max_pixel_list_from(2)", lambda c: [int(i) for i in self._mv(c).max_pixel_list_from(total_pixels=2)[0]])
+        for tp in (3, 6):
+            E("read MapperValued(no pixel mask).max_pixel_list_from(%d, filter_neighbors=True)" % tp, (lambda tp: lambda c: [int(i) for i in aa.MapperValued(
+                mapper=c["objs"][0], values=c["values2"]).max_pixel_list_from(total_pixels=tp, filter_neighbors=True)[0]])(tp))
+        E("read inv.mapper_edge_pixel_list", lambda c: [int(i) for i in c["inv"].mapper_edge_pixel_list])
         E("read MapperValued(no pixel mask).mapped_reconstructed_image_from()",
           lambda c: _arr(aa.MapperValued(mapper=c["objs"][0], values=c["values2"]).mapped_reconstructed_image_from()))
 
